@@ -65,7 +65,7 @@ var c03SelfTests = []SelfTest{
 	{Name: "low-order result check dropped", ExpectRule: "C03.R6", ExpectKey: "low-order", Edits: []Edit{
 		{File: "internal/crypto/crypto.go", Old: "\tif sharedSecret == zeroKey {\n\t\treturn sharedSecret, fmt.Errorf(\"invalid ECDH result: low-order point\")\n\t}\n", New: ""},
 	}},
-	{Name: "zero remote key check inverted into a no-op", ExpectRule: "C03.R6", ExpectKey: "zero remote key", Edits: []Edit{
+	{Name: "rewrite: explicit zero-input test dropped, the result test still refuses the zero point", Edits: []Edit{
 		{File: "internal/crypto/crypto.go", Old: "\tif remotePublicKey == zeroKey {\n", New: "\tif privateKey == zeroKey {\n"},
 	}},
 	{Name: "salt binds the initiator key twice", ExpectRule: "C03.R7", ExpectKey: "responderPub", Edits: []Edit{
@@ -73,6 +73,25 @@ var c03SelfTests = []SelfTest{
 	}},
 	{Name: "salt fields overlap", ExpectRule: "C03.R7", ExpectKey: "disjoint", Edits: []Edit{
 		{File: "internal/crypto/crypto.go", Old: "copy(salt[8+KeySize:], responderPub[:])", New: "copy(salt[8:], responderPub[:])"},
+	}},
+	{Name: "request id truncated to 32 bits at the udp exit", ExpectRule: "C03.R4", ExpectKey: "performKeyExchange", Edits: []Edit{
+		{File: "internal/udp/handler.go", Old: "crypto.DeriveSessionKey(sharedSecret, open.RequestID, remoteEphemeralPub, ephPub, false)", New: "crypto.DeriveSessionKey(sharedSecret, uint64(uint32(open.RequestID)), remoteEphemeralPub, ephPub, false)"},
+	}},
+	{Name: "salt binds only the low 32 bits of the identifier", ExpectRule: "C03.R7", ExpectKey: "full width", Edits: []Edit{
+		{File: "internal/crypto/crypto.go", Old: "binary.BigEndian.PutUint64(salt[0:8], streamID)", New: "binary.BigEndian.PutUint64(salt[0:8], uint64(uint32(streamID)))"},
+	}},
+	{Name: "ECDH error overwritten by a later call before it is tested (seed C03-b class)", ExpectRule: "C03.R3", ExpectKey: "forward", Edits: []Edit{
+		{File: "internal/forward/handler.go", Old: "\tsharedSecret, err := crypto.ComputeECDH(ephPriv, remoteEphemeralPub)\n\tif err != nil {", New: "\tsharedSecret, err := crypto.ComputeECDH(ephPriv, remoteEphemeralPub)\n\t_, err = crypto.ComputeECDH(ephPriv, ephPub)\n\tif err != nil {"},
+	}},
+	{Name: "output check replaced by an input blocklist (seed C03-a class)", ExpectRule: "C03.R6", ExpectKey: "low-order", Edits: []Edit{
+		{File: "internal/crypto/crypto.go", Old: "\tif sharedSecret == zeroKey {\n\t\treturn sharedSecret, fmt.Errorf(\"invalid ECDH result: low-order point\")\n\t}\n", New: ""},
+		{File: "internal/crypto/crypto.go", Old: "\tif remotePublicKey == zeroKey {\n", New: "\tvar one [KeySize]byte\n\tone[0] = 1\n\tif remotePublicKey == zeroKey || remotePublicKey == one {\n"},
+	}},
+	{Name: "udp exit acks with a second, unrelated key pair", ExpectRule: "C03.R5", ExpectKey: "key sent", Edits: []Edit{
+		{File: "internal/udp/handler.go", Old: "\t\tack.EphemeralPubKey = ephPub\n", New: "\t\t_, other, _ := crypto.GenerateEphemeralKeypair()\n\t\tack.EphemeralPubKey = other\n\t\t_ = ephPub\n"},
+	}},
+	{Name: "exit derives after the dial and tests only the dial error", ExpectRule: "C03.R3", ExpectKey: "handleStreamOpenAsync", Edits: []Edit{
+		{File: "internal/exit/handler.go", Old: "\tsharedSecret, err := crypto.ComputeECDH(ephPriv, remoteEphemeralPub)\n\tif err != nil {\n\t\tcrypto.ZeroKey(&ephPriv)\n\t\th.sendOpenErr(remoteID, streamID, requestID, protocol.ErrGeneralFailure, \"key exchange failed\")\n\t\treturn\n\t}\n", New: "\tsharedSecret, err := crypto.ComputeECDH(ephPriv, remoteEphemeralPub)\n\tif err != nil {\n\t\th.logger.Debug(\"key exchange failed\")\n\t}\n"},
 	}},
 	{Name: "rewrite: derivation hoisted into a local helper closure (exit)", Edits: []Edit{
 		{File: "internal/exit/handler.go", Old: "sessionKey := crypto.DeriveSessionKey(sharedSecret, requestID, remoteEphemeralPub, ephPub, false)", New: "sessionKey := func(id uint64, remote, local [crypto.KeySize]byte) *crypto.SessionKey {\n\t\treturn crypto.DeriveSessionKey(sharedSecret, id, remote, local, false)\n\t}(requestID, remoteEphemeralPub, ephPub)"},
@@ -306,6 +325,10 @@ func (t *c03Tracer) val(v ssa.Value) {
 	case *ssa.ChangeType:
 		t.val(x.X)
 	case *ssa.Convert:
+		if from, to := c03IntBits(x.X.Type()), c03IntBits(x.Type()); from > 0 && to > 0 && to < from {
+			t.other(v, fmt.Sprintf("identifier truncated to %d bits", to))
+			return
+		}
 		t.val(x.X)
 	case *ssa.MakeInterface:
 		t.val(x.X)
@@ -329,6 +352,25 @@ func (t *c03Tracer) val(v ssa.Value) {
 	default:
 		t.other(v, fmt.Sprintf("%T", v))
 	}
+}
+
+// c03IntBits returns the width of an integer type (0 for non-integers; int/uint/uintptr count as 64).
+func c03IntBits(t types.Type) int {
+	b, ok := t.Underlying().(*types.Basic)
+	if !ok {
+		return 0
+	}
+	switch b.Kind() {
+	case types.Int8, types.Uint8:
+		return 8
+	case types.Int16, types.Uint16:
+		return 16
+	case types.Int32, types.Uint32:
+		return 32
+	case types.Int64, types.Uint64, types.Int, types.Uint, types.Uintptr:
+		return 64
+	}
+	return 0
 }
 
 // load handles *addr.
@@ -1430,8 +1472,13 @@ func (cx *c03Ctx) checkECDH() {
 			outOK = false
 		}
 	}
+	// X25519 maps the all-zero point to the all-zero secret, so the result test subsumes the input test
+	inMsg := "every nil-error return is dominated by a test that the remote public key is not all-zero"
+	if !inOK && outOK {
+		inOK, inMsg = true, "an all-zero remote key yields an all-zero secret, which the result test rejects on every nil-error path"
+	}
 	r.Decide(inOK, "C03.R6", key+" zero remote key rejected", p.Pos(fn.Pos()),
-		"every nil-error return is dominated by a test that the remote public key is not all-zero",
+		inMsg,
 		"a nil-error return is reachable with an all-zero remote public key: the degenerate key is not refused")
 	r.Decide(outOK, "C03.R6", key+" low-order result rejected", p.Pos(mult.Pos()),
 		"every nil-error return is dominated by a test, after ScalarMult, that the shared secret is not all-zero",
@@ -1507,6 +1554,24 @@ func (cx *c03Ctx) checkDerive() {
 				width = 4
 			case "PutUint16":
 				width = 2
+			}
+			// the request identifier must enter the salt in full width
+			val, narrowed := kit.Arg(c, 1), false
+			for {
+				cv, isCv := val.(*ssa.Convert)
+				if !isCv {
+					break
+				}
+				if from, to := c03IntBits(cv.X.Type()), c03IntBits(cv.Type()); from > 0 && to > 0 && to < from {
+					narrowed = true
+				}
+				val = cv.X
+			}
+			if val == ssa.Value(fn.Params[1]) {
+				full := !narrowed && width*8 >= int64(c03IntBits(fn.Params[1].Type()))
+				r.Decide(full, "C03.R7", key+" identifier in full width", p.Pos(c.Pos()),
+					"the request identifier is written into the salt without truncation",
+					"the request identifier is truncated before it enters the salt: tunnels whose identifiers differ only in the dropped bits derive the same key")
 			}
 		default:
 			continue
